@@ -112,8 +112,9 @@ class OutgoingBallsHandler(BallDeviceStateHandler):
                     incoming_ball_at_target = self._add_incoming_ball_to_target(eject_request.target)
                     result = await self._handle_confirm(eject_request, ball_eject_process,
                                                         incoming_ball_at_target, 1)
+                    # always end the eject process which start_eject began: it holds the counting locks
+                    await self.ball_device.ball_count_handler.end_eject(ball_eject_process, bool(result))
                     if result:
-                        await self.ball_device.ball_count_handler.end_eject(ball_eject_process, True)
                         continue
 
                 if not await self._ejecting(eject_request):
